@@ -14,14 +14,16 @@ struct Cycle {
     bool shared;
     int form, rel, hold, dur_us;
     bool moved_from_first;
+    bool submit_first = false;  // deferred_guarded only: queue / apply a modification right before the acquisition
 };
 static std::string cyc_json(const Cycle& c)
 {
     return std::string("{\"side\":\"") + (c.shared ? "shared" : "exclusive") + "\",\"form\":\"" + FORMN[c.form] + "\",\"release\":\"" + RELN[c.rel] + "\",\"hold\":" +
-        std::to_string(c.hold) + ",\"us\":" + std::to_string(c.dur_us) + "}";
+        std::to_string(c.hold) + ",\"us\":" + std::to_string(c.dur_us) + (c.submit_first ? ",\"modify_detach_first\":1" : "") + "}";
 }
 struct Stats {
     std::atomic<uint64_t> nonnull{0}, null{0}, timed_null{0}, cycles{0};
+    std::atomic<const void*> handle_mutex{nullptr};  // the mutex the wrapper's handles hold (learned from the first non-null handle)
 };
 
 template<class M>
@@ -38,10 +40,19 @@ static void life(const Cycle& c, bool enabled, bool solo, Acquire acquire, Acqui
 {
     size_t before = vrf::held_count();
     uint64_t lc0 = vrf::stats().lock_calls, cv0 = vrf::stats().cv_waits;
+    vrf::ctx().block_objs.clear();
     auto t0 = std::chrono::steady_clock::now();
     H h = acquire();
     auto el = std::chrono::steady_clock::now() - t0;
     size_t after = vrf::held_count();
+    // a try / timed form never waits (untimed) for the lock that handles hold - i.e. for other holders. Short internal
+    // critical sections (e.g. deferred_guarded's queue mutex) are not holders and are not judged.
+    if (c.form != Q_LOCK) {
+        const void* hm = st.handle_mutex.load(std::memory_order_relaxed);
+        for (const void* o : vrf::ctx().block_objs)
+            if (hm != nullptr && o == hm) fail("oracle:try_or_timed_acquisition_waited_untimed_for_the_handle_lock", c);
+    }
+    if (enabled && h && after == before + 1) st.handle_mutex.store(vrf::ctx().held.back().m, std::memory_order_relaxed);
     st.cycles.fetch_add(1, std::memory_order_relaxed);
     if ((c.form == Q_TRY_FOR || c.form == Q_TRY_UNTIL || c.form == Q_TRY) && !vrf::in_serial() &&
         el > std::chrono::microseconds(c.dur_us) + std::chrono::seconds(2))
@@ -115,33 +126,40 @@ static void run_thread(W& w, W& other, const std::vector<Cycle>& script, bool en
         if (!c.shared) {
             if constexpr (HAS_EXCL) {
                 using H = decltype(w.lock());
+                Cycle cc = c;
+                if (!is_timed<M> && (c.form == Q_TRY_FOR || c.form == Q_TRY_UNTIL)) cc.form = Q_TRY;  // timed forms need a timed mutex
                 auto acq = [&]() -> H {
-                    if (c.form == Q_TRY) return w.try_lock();
+                    if (cc.form == Q_TRY) return w.try_lock();
                     if constexpr (is_timed<M>) {
-                        if (c.form == Q_TRY_FOR) return w.try_lock_for(dur);
-                        if (c.form == Q_TRY_UNTIL) return w.try_lock_until(std::chrono::steady_clock::now() + dur);
+                        if (cc.form == Q_TRY_FOR) return w.try_lock_for(dur);
+                        if (cc.form == Q_TRY_UNTIL) return w.try_lock_until(std::chrono::steady_clock::now() + dur);
                     }
                     return w.lock();
                 };
                 auto acq_other = [&]() -> H { return other.try_lock(); };
-                Cycle cc = c;
-                if (!is_timed<M> && (c.form == Q_TRY_FOR || c.form == Q_TRY_UNTIL)) cc.form = Q_TRY;
                 life<H>(cc, enabled, solo, acq, acq_other, st);
             }
         } else {
             if constexpr (HAS_SHARED) {
+                if constexpr (std::is_same<W, deferred_guarded<Cell, M>>::value) {
+                    if (c.submit_first)
+                        w.modify_detach([](Cell& cell) {
+                            Win win(cell, true);
+                            cell.check("queued modification");
+                        });
+                }
                 using H = decltype(w.lock_shared());
+                Cycle cc = c;
+                if (!is_timed<M> && (c.form == Q_TRY_FOR || c.form == Q_TRY_UNTIL)) cc.form = Q_TRY;  // timed forms need a timed mutex
                 auto acq = [&]() -> H {
-                    if (c.form == Q_TRY) return w.try_lock_shared();
+                    if (cc.form == Q_TRY) return w.try_lock_shared();
                     if constexpr (is_timed<M>) {
-                        if (c.form == Q_TRY_FOR) return w.try_lock_shared_for(dur);
-                        if (c.form == Q_TRY_UNTIL) return w.try_lock_shared_until(std::chrono::steady_clock::now() + dur);
+                        if (cc.form == Q_TRY_FOR) return w.try_lock_shared_for(dur);
+                        if (cc.form == Q_TRY_UNTIL) return w.try_lock_shared_until(std::chrono::steady_clock::now() + dur);
                     }
                     return w.lock_shared();
                 };
                 auto acq_other = [&]() -> H { return other.try_lock_shared(); };
-                Cycle cc = c;
-                if (!is_timed<M> && (c.form == Q_TRY_FOR || c.form == Q_TRY_UNTIL)) cc.form = Q_TRY;
                 life<H>(cc, enabled, solo, acq, acq_other, st);
             }
         }
@@ -173,6 +191,7 @@ static void round_on(long r, int fam, int mut, bool enabled, Mk make)
             c.hold = static_cast<int>(rng.below(5));
             c.dur_us = durs[rng.below(3)];
             c.moved_from_first = rng.chance(50);
+            c.submit_first = (fam == DEFERRED) && rng.chance(40);
             sc.push_back(c);
         }
         scripts.push_back(sc);
